@@ -8,7 +8,7 @@ from .native import tree_from_rsym, tree_from_debug
 from .outreader import read_output, render_reflects_tree, Malformed
 from .hb import concrete_tree, OPTS
 
-OPS = ['new', 'add', 'opt', 'rm', 'get', 'merge', 'mult', 'text', 'nest']
+OPS = ['new', 'add', 'opt', 'rm', 'get', 'merge', 'mult', 'text', 'nest', 'readd', 'dupadd']
 NAMES = ['a', 'b', 'c']
 
 class MNode:
@@ -72,6 +72,7 @@ class OpSequence(Harness):
     def run(self, m):
         P = m.call_fn(m.impls['Element']['new'], [RStr('r'), RVec([])]); MP = MNode('r')
         C = None; MC = None          # staged child
+        D = None; MD = None          # last removed child (it keeps the position it had)
         conds = []; log = []
         E = m.impls['Element']
         for i in range(self.length):
@@ -99,6 +100,7 @@ class OpSequence(Harness):
                 conds.append(('step %d remove_child: returns a child iff the name is present' % i, (got.variant == 'Some') == (j is not None)))
                 if j is not None and got.variant == 'Some':
                     t, mk = MP.kids.pop(j)
+                    D = got.p[0].p[0]; MD = mk
                     sub = []; same_tree(got.p[0].p[0], mk, 'removed', sub)
                     conds.append(('step %d remove_child: returns the child with the given name, optionality and subtree' % i, AND(got.p[0].variant[0] == t, *[c for _, c in sub])))
             elif k == 'get':
@@ -126,6 +128,19 @@ class OpSequence(Harness):
             elif k == 'text':
                 tgt, mt = (C, MC) if (C is not None and m.branch(self.flag[i])) else (P, MP)
                 tgt.f['text'] = Some(RStr('t')); mt.text = True
+            elif k == 'readd':
+                # add an element that came back from remove_child (it still carries a position)
+                if D is not None:
+                    existed = model_find(m, MP, MD.name)
+                    m.call_fn(E['add_unique_child'], [D], self_val=P)
+                    if existed is None: MP.kids.append(['M', MD])
+                    D = None; MD = None
+            elif k == 'dupadd':
+                # clone an existing child (get_child + clone) and add the clone again: the name is present, so nothing may change
+                got = m.call_fn(E['get_child'], [RStr(nm)], self_val=P)
+                if got.variant == 'Some':
+                    cl = deep(m.call_fn(m.impls['Necessity']['inner_t'], [], self_val=got.p[0]))
+                    m.call_fn(E['add_unique_child'], [cl], self_val=P)
             elif k == 'nest':
                 # give the staged child a grandchild (so that subtrees are non-trivial)
                 if C is not None:
@@ -181,7 +196,9 @@ class OpSequence(Harness):
             elif k == 'text': ops.append({'op': 'text', 'r': 1 if (staged and fl) else 0, 'text': 't'})
             elif k == 'nest':
                 if staged: ops += [{'op': 'new', 'r': 3, 'name': nm}, {'op': 'add', 'r': 1, 'c': 3}]
-        return {'ops': [{'op': 'new', 'r': 0, 'name': 'r'}] + ops, 'regs': 4}
+            elif k == 'readd': ops.append({'op': 'add', 'r': 0, 'c': 2})
+            elif k == 'dupadd': ops += [{'op': 'clonechild', 'r': 0, 'name': nm, 'd': 4}, {'op': 'add', 'r': 0, 'c': 4}]
+        return {'ops': [{'op': 'new', 'r': 0, 'name': 'r'}] + ops, 'regs': 5}
     def result_summary(self, m, out, model):
         return {'tree': tree_from_rsym(out['P'], lambda v: X.mval(model, v)), 'output': X.mval(model, out['out']) if out['out'] is not None else None}
     def validate_sample(self, s, replay):
@@ -225,6 +242,9 @@ def concrete_model(ops):
         elif k == 'add':
             ch = regs.pop(op['c'], None)
             if ch is not None and r in regs and all(kk.name != ch.name for _, kk in regs[r].kids): regs[r].kids.append(['M', ch])
+        elif k == 'clonechild':
+            for e in regs[r].kids:
+                if e[1].name == op['name']: regs[op['d']] = e[1].clone()
         elif k == 'opt':
             for e in regs[r].kids:
                 if e[1].name == op['name']: e[0] = 'O'
